@@ -504,7 +504,16 @@ func (ex *Exec) resolveTarget(env *SpecEnv, e Expr, src string) []target {
 			}
 			ex.fail("modifies %s: allelems needs a slice type", src)
 		case "allentries":
+			tn := ""
 			if te, ok := e.Args[0].(*EIdent); ok {
+				tn = te.Name
+			} else if fe, ok := e.Args[0].(*EField); ok {
+				if id, ok := fe.X.(*EIdent); ok {
+					tn = id.Name + "." + fe.Name
+				}
+			}
+			if tn != "" {
+				te := &EIdent{tn}
 				if t := ex.ld.resolveType(te.Name, env.pkg); t != nil {
 					if mt, ok := t.Underlying().(*types.Map); ok {
 						return ex.mapTargets(mt, nil)
